@@ -1106,6 +1106,8 @@ class LinkAccessor(WritableAccessor[T_co], PhysicalAccessor[T_co]):
         if isinstance(value, NewObject):
             raise NotImplementedError("Cannot insert new objects yet")
 
+        if index < 0:
+            index = max(len(elmlist) + index, 0)
         self.__create_link(
             elmlist._parent,
             value,
